@@ -1,11 +1,17 @@
 use std::collections::HashMap;
 use std::hash::BuildHasherDefault;
-use std::sync::{Arc, Mutex};
+use std::sync::Arc;
+#[cfg(not(rten_verif = "shuttle_plan"))]
+use std::sync::Mutex;
 use std::time::Duration;
 
 use rayon::prelude::*;
 use rten_base::num::AsUsize;
 use rten_tensor::prelude::*;
+// Under `--cfg 'rten_verif="shuttle_plan"'` the plan-cache mutex is Shuttle's,
+// whose scheduler decides every interleaving (external verification tooling).
+#[cfg(rten_verif = "shuttle_plan")]
+use shuttle::sync::Mutex;
 
 // The std HashMap/HashSet provide DOS resistance. In this module hash keys are
 // mostly `NodeId`s which we allocate ourselves, so this is not a concern.
